@@ -4,6 +4,7 @@
 package core
 
 import (
+	"sync"
 	"fmt"
 	"go/token"
 	"go/types"
@@ -182,7 +183,78 @@ func IsKarpenterFn(fn *ssa.Function) bool {
 func FnPkg(fn *ssa.Function) string { return Short(fnPkgPath(fn)) }
 
 // FnName is the short, stable name used in tables: e.g. "(*controllers/provisioning.Provisioner).Create", closures "…$1".
-func FnName(fn *ssa.Function) string { return Short(fn.String()) }
+// FnName is the canonical short name of a function. An unexported plain function whose first parameter (after an optional
+// context) is a struct type of its own package — or a pointer to one — is named like the method it could equally be
+// ("(*pkg.T).name"): turning an unexported helper method into a function taking the receiver as an argument (or back)
+// is not a change of the program, and every table row quotes this name. Parameter numbering follows (PseudoRecv).
+func FnName(fn *ssa.Function) string {
+	if n, ok := fnNameCache.Load(fn); ok {
+		return n.(string)
+	}
+	n := fnName(fn)
+	fnNameCache.Store(fn, n)
+	return n
+}
+
+var fnNameCache sync.Map
+
+func fnName(fn *ssa.Function) string {
+	if p := fn.Parent(); p != nil && strings.HasPrefix(fn.Name(), p.Name()) {
+		return FnName(p) + fn.Name()[len(p.Name()):]
+	}
+	if i, ok := PseudoRecv(fn); ok {
+		t := fn.Params[i].Type()
+		return Short("(" + t.String() + ")." + fn.Name())
+	}
+	return Short(fn.String())
+}
+
+var pseudoRecvCache sync.Map
+
+// PseudoRecv: the index of the parameter that plays the receiver in an unexported plain function (see FnName).
+func PseudoRecv(fn *ssa.Function) (int, bool) {
+	if v, ok := pseudoRecvCache.Load(fn); ok {
+		i := v.(int)
+		return i, i >= 0
+	}
+	i := pseudoRecv(fn)
+	pseudoRecvCache.Store(fn, i)
+	return i, i >= 0
+}
+
+func pseudoRecv(fn *ssa.Function) int {
+	if fn == nil || fn.Signature == nil || fn.Signature.Recv() != nil || fn.Parent() != nil || fn.Pkg == nil || fn.Synthetic != "" ||
+		len(fn.TypeArgs()) > 0 || fn.Signature.TypeParams().Len() > 0 || len(fn.Params) == 0 || len(fn.Blocks) == 0 {
+		return -1
+	}
+	obj := fn.Object()
+	if obj == nil || obj.Exported() || !IsKarpenterFn(fn) || fn.Name() == "init" || strings.HasPrefix(fn.Name(), "init#") {
+		return -1
+	}
+	i := 0
+	if isContext(fn.Params[0].Type()) {
+		if len(fn.Params) < 2 {
+			return -1
+		}
+		i = 1
+	}
+	t := fn.Params[i].Type()
+	if p, ok := t.(*types.Pointer); ok {
+		t = p.Elem()
+	}
+	named, ok := t.(*types.Named)
+	if !ok || named.Obj().Pkg() == nil || named.Obj().Pkg() != fn.Pkg.Pkg || named.TypeArgs().Len() > 0 {
+		return -1
+	}
+	if _, isStruct := named.Underlying().(*types.Struct); !isStruct {
+		return -1
+	}
+	// a real method of that name exists: keep both apart
+	if ms := types.NewMethodSet(types.NewPointer(named)); ms.Lookup(fn.Pkg.Pkg, fn.Name()) != nil {
+		return -1
+	}
+	return i
+}
 
 // IsTestSupport reports packages excluded from inventories (fakes, test helpers, kwok provider).
 func IsTestSupport(fn *ssa.Function) bool {
